@@ -16,6 +16,8 @@ func stdlibEffects(fn *ssa.Function) ([]string, bool) {
 	case strings.HasPrefix(name, "encoding/binary.PutUvarint"), strings.HasPrefix(name, "encoding/binary.PutVarint"),
 		strings.Contains(name, "Endian).PutUint"), strings.HasPrefix(name, "encoding/binary.AppendUvarint"), strings.Contains(name, "Endian).AppendUint"):
 		return []string{bvSort(8)}, true
+	case name == "sort.Slice", name == "sort.SliceStable", name == "sort.Ints", name == "sort.Strings", name == "slices.Sort", name == "sort.Sort":
+		return []string{bvSort(8), bvSort(64), bvSort(32), SLoc, SSlice, SBool, SIface}, true
 	case strings.HasPrefix(name, "(*bufio.Reader)."):
 		return []string{"Avail"}, true
 	case name == "io.ReadFull":
@@ -291,6 +293,31 @@ func (a *Activation) stdlibCall(st *State, callee *ssa.Function, cc *ssa.CallCom
 		a.frameRange(st, sArr(buf), sOff(buf), sLen(buf), pos)
 		a.havocRange(st, bvSort(8), frameRangeT{arr: sArr(buf), lo: sOff(buf), n: sLen(buf)})
 		return Val{Tuple: []Val{{T: n}, {T: e}}}, true
+	case "sort.Slice", "sort.SliceStable", "sort.Ints", "sort.Strings", "slices.Sort", "sort.Sort":
+		// in-place reordering: the elements of the argument slice become arbitrary (a
+		// permutation is not modelled); nothing else changes
+		var sl Term
+		var elemT types.Type
+		if mi, ok := cc.Args[0].(*ssa.MakeInterface); ok {
+			if st0, ok := mi.X.Type().Underlying().(*types.Slice); ok {
+				srt := g.sortOf(mi.X.Type())
+				payload := "iface_val_" + mangle(srt)
+				g.declareFun(payload, []string{SIface}, srt)
+				sl = app(srt, payload, args[0].T)
+				elemT = st0.Elem()
+			}
+		} else if st0, ok := cc.Args[0].Type().Underlying().(*types.Slice); ok {
+			sl = args[0].T
+			elemT = st0.Elem()
+		}
+		if elemT == nil {
+			return Val{}, false
+		}
+		mark()
+		g.trusted["sort.Slice/sort.Ints/...: reorder the argument slice in place (elements become unconstrained; sortedness and permutation are NOT assumed); nothing else is modified"] = true
+		a.frameRange(st, sArr(sl), sOff(sl), sLen(sl), pos)
+		a.havocElems(st, elemT, sl)
+		return Val{}, true
 	case "strconv.Atoi", "strconv.ParseInt", "strconv.ParseUint":
 		mark()
 		g.trusted["strconv.Atoi/ParseInt: uninterpreted (any integer result, any error); only totality is assumed"] = true
